@@ -18,6 +18,7 @@ MD, PAD = 'crysp/md.py', 'crysp/padding.py'
 
 
 def run(ctx):
+    integrity(ctx, ['crysp/bits.py', 'crysp/md.py', 'crysp/padding.py', 'crysp/poly.py'])
     ctx.rule('C17-R1 constants')
 
     def consts():
